@@ -26,6 +26,8 @@ def run(ctx):
         if not exprs.valid(t) and len(inv) != len(obs):
             ok = [o for o in obs if o[1] == "ok"]
             ctx.fail(f"{name}|invalid-evaluates", {"expression": name, "rc": ok[0][0] if ok else {}}, "invalid-expression error under every assignment (structurally invalid)", "evaluates", "oracle: C06 invalid_always")
+    n_valid_api = validity_check_oracle(ctx, per)
+    ctx.notes["validity_check_calls"] = n_valid_api
     ctx.coverage["distinct_nontrivial"] = nontrivial
     ctx.coverage["rule"] = ("corpus of C04 (exhaustive <= 3 leaves x all 3^m assignments + random trees); per expression the set of assignments raising "
                             "InvalidExpressionError must be all (structurally invalid) or none (valid); non-trivial = distinct in-domain expressions with an operator")
@@ -33,6 +35,54 @@ def run(ctx):
     for name in list(per)[300:303]:
         ctx.sample({"expression": name, "structurally_valid": exprs.valid(per[name][0])})
     return finish(ctx, assumptions=["expressions are in the property's domain (dom): juxtaposition attaches one FC key to a hint or an RC-carrying operand"])
+
+
+def validity_check_oracle(ctx, per):
+    """is_valid_expression (with CER-based evaluators and a ContextVar setter, as in the test suite) agrees with the
+    structural criterion, for AHB expressions and for trees"""
+    import asyncio
+    from contextvars import ContextVar
+
+    import inject
+    from efoli import EdifactFormat, EdifactFormatVersion
+    from ahbicht.content_evaluation import is_valid_expression
+    from ahbicht.content_evaluation.evaluationdatatypes import EvaluatableData, EvaluatableDataProvider
+    from ahbicht.content_evaluation.evaluator_factory import create_content_evaluation_result_based_evaluators
+    from ahbicht.content_evaluation.token_logic_provider import SingletonTokenLogicProvider, TokenLogicProvider
+    from ahbicht.models.content_evaluation_result import ContentEvaluationResultSchema
+    from vlib import evalimpl
+
+    var = ContextVar("verif_cer", default=None)
+    fmt, ver = EdifactFormat.UTILMD, EdifactFormatVersion.FV2210
+
+    def data():
+        return EvaluatableData(body=ContentEvaluationResultSchema().dump(var.get()), edifact_format=fmt, edifact_format_version=ver)
+
+    def cfg(binder):
+        binder.bind(TokenLogicProvider, SingletonTokenLogicProvider([*create_content_evaluation_result_based_evaluators(fmt, ver)]))
+        binder.bind_to_provider(EvaluatableDataProvider, data)
+
+    inject.clear_and_configure(cfg)
+    names = sorted(per)
+    ctx.rng.shuffle(names)
+    n = 0
+    try:
+        for name in names[: 250 if ctx.quick else 4000]:
+            t = per[name][0]
+            if len(set(exprs.leaves(t))) > 3:
+                continue
+            ind = ctx.rng.choice(["Muss ", "Soll", "K", "X", "u "])
+            s = ind + name
+            tag, v = evalimpl.outcome(lambda: asyncio.run(is_valid_expression(s, var.set)))
+            n += 1
+            want = exprs.valid(t)
+            if tag != "ok" or v[0] is not want or (want and v[1] is not None) or (not want and not isinstance(v[1], str)):
+                ctx.fail(f"is_valid|{s}", {"expression": s}, f"({want}, {'None' if want else 'reason'})", str((tag, v))[:200], "oracle: validity check agrees with the structural criterion")
+    finally:
+        inject.clear()
+        evalimpl._configured = False  # pylint: disable=protected-access
+    ctx.add_eval(n)
+    return n
 
 
 def replay(path):
